@@ -2,7 +2,7 @@
    Model: Ops.v.  rt0 / np0 are the committed snapshot (OpsTable.v) of numpy's result_type table and of numpy's own
    operator result dtypes; the harness regenerates both from the installed numpy on every run and re-proves the
    table theorems on the regenerated data with the general lemmas used here.
-   [repaired] = the tree with fixes/F10a.diff and fixes/F21.diff, [pinned] = the tree without them. *)
+   [repaired] = the tree with fixes/F10a.diff, fixes/F21.diff and fixes/F22.diff, [pinned] = the tree without them. *)
 From Coq Require Import ZArith List Bool.
 From Spox Require Import Ops OpsFacts OpsTable OpsTableFacts.
 Import ListNotations.
@@ -151,6 +151,19 @@ Theorem C17_neg_exact :
     t' = t /\ (is_int t = true -> forall a b, ieval e a b = Some (wrap t (- a))).
 Proof. exact neg_exact. Qed.
 Print Assumptions C17_neg_exact.
+
+(* unary - on unsigned element types: ONNX Neg does not accept them, so the pinned tree raises (onnx InferenceError)
+   where numpy wraps; the tree with fixes/F22.diff emits 0 - x, and then every numeric element type has a result,
+   exact modulo 2^w by C17_neg_exact *)
+Theorem C17_neg_unsigned_pinned_rejects :
+  forall r s t, fix_neg_unsigned r = false -> is_uint t = true -> py_unop r (Some s) PNeg (OVar t) = Err EInference.
+Proof. exact neg_unsigned_pinned_rejects. Qed.
+Print Assumptions C17_neg_unsigned_pinned_rejects.
+
+Theorem C17_neg_numeric_repaired_ok :
+  forall r s t, fix_neg_unsigned r = true -> In t numeric_ety -> exists e, py_unop r (Some s) PNeg (OVar t) = Ok e t.
+Proof. exact neg_numeric_repaired_ok. Qed.
+Print Assumptions C17_neg_numeric_repaired_ok.
 
 (* ---- integer floor division ------------------------------------------------------------------------------------ *)
 (* F10a, pinned tree: the emitted Div truncates; witness -7 // 2 *)
